@@ -164,6 +164,8 @@ Thread *choose(Thread *self) {
             if (t->st != DONE && t->st != RUNNABLE && t->deadline && (!best || t->deadline < best)) best = t->deadline;
         if (!best) fatal(0, "deadlock: no runnable thread and no pending deadline");
         if (best > G.clock_ns) G.clock_ns = best;
+        if (G.cfg.max_virtual_ns && G.clock_ns - 1000ull * 1000000000ull > G.cfg.max_virtual_ns)
+            fatal(3, "virtual time limit exceeded: threads keep waking up on timeouts but the program never finishes");
         G.stats.time_jumps++;
         for (auto *t : G.th)
             if (t->st != DONE && t->st != RUNNABLE && t->deadline && t->deadline <= G.clock_ns) {
